@@ -416,7 +416,7 @@ def correspond(tier, seed, model_ok):
     out = Outcome()
     K = _cl.consts()
     r = Rng(seed + 3)
-    n, nops = (90, 32) if tier == "quick" else (2500, 50)
+    n, nops = (90, 32) if tier == "quick" else (1200, 45)
     cases = [_cl.gen_case(r.fork(i), nops, K, weights=WEIGHTS, est=True) for i in range(n)]
     corpus = common.load_corpus(PROP)
     pairs = run_cases(corpus + cases, model_ok, out, "q", K, selft=True)
